@@ -191,7 +191,7 @@ def pretty_trace(res):
             else:
                 out.append("poll %d: %s" % (i, {1: "accept c%d", 2: "invoke t%d", 7: "new-stream key%d",
                                                 4: "write-fail c%d", 5: "drop c%d", 6: "stream-drop key%d",
-                                                9: "exit"}.get(e[0], "?") % tuple(e[1:2])))
+                                                8: "stream-yield key%d", 9: "exit"}.get(e[0], "?") % tuple(e[1:2])))
     return out
 
 
